@@ -320,16 +320,43 @@ fn match_feature(spec: &Spec, vars: &[std::collections::BTreeMap<String, usize>]
     "plain".into()
 }
 
+/// Shape of a pattern on which the SUT is known to accept uses that R7RS rejects.
+fn wrong_accept_feature(spec: &Spec, pattern: &Sx) -> Option<&'static str> {
+    // (_ . P): the rest pattern is not a pair
+    if let Sx::Dotted(v, _) = pattern {
+        if v.len() == 1 {
+            return Some("pattern:dot-after-keyword");
+        }
+    }
+    let f = pattern_features(spec, pattern);
+    if f.vector {
+        Some("pattern:vector")
+    } else if f.dotted_tail {
+        Some("pattern:dotted-tail")
+    } else {
+        None
+    }
+}
+
 /// Feature for "no rule matches, yet the SUT expanded".
 fn nomatch_feature(spec: &Spec) -> String {
-    let fs: Vec<_> = spec.rules.iter().map(|r| pattern_features(spec, &r.pattern)).collect();
-    if fs.iter().any(|f| f.vector) {
-        return "pattern:vector".into();
-    }
-    if fs.iter().any(|f| f.dotted_tail) {
-        return "pattern:dotted-tail".into();
+    let fs: Vec<_> = spec.rules.iter().filter_map(|r| wrong_accept_feature(spec, &r.pattern)).collect();
+    for want in ["pattern:dot-after-keyword", "pattern:vector", "pattern:dotted-tail"] {
+        if fs.contains(&want) {
+            return want.into();
+        }
     }
     "plain".into()
+}
+
+/// The reference selected rule `i` and nothing about it explains a difference: did an
+/// earlier rule with a wrongly-accepting shape take the use?
+fn earlier_rule_feature(spec: &Spec, i: usize) -> Option<String> {
+    spec.rules[..i]
+        .iter()
+        .filter_map(|r| wrong_accept_feature(spec, &r.pattern))
+        .next()
+        .map(|f| format!("earlier-rule-accepted|{}", f))
 }
 
 fn record_classes(ctx: &Ctx, spec: &Spec, vars: &[std::collections::BTreeMap<String, usize>], args: &Sx) {
@@ -531,7 +558,12 @@ fn check_valid(ctx: &Ctx, kind: &str, journal_payload: Value, spec: &Spec, args:
                         ctx.sample(|| render(&def_canon, args, &ref_text, &got.to_string()));
                         Outcome::Pass
                     } else {
-                        let feat = match_feature(spec, &vars, *rule, events);
+                        let mut feat = match_feature(spec, &vars, *rule, events);
+                        if feat == "plain" {
+                            if let Some(f) = earlier_rule_feature(spec, *rule) {
+                                feat = f;
+                            }
+                        }
                         let others = sr::all_matches(spec, args);
                         let as_other = others
                             .iter()
